@@ -119,6 +119,11 @@ class Repo:
             self.modules[rel] = mod
             self._index(mod)
         self.inlined = []
+        self.renamed_back = []
+        if not os.environ.get("OSACA_SA_NO_SHAPES"):
+            from .shapes import undo_renames
+
+            self.renamed_back = undo_renames(self)
         if not os.environ.get("OSACA_SA_NO_INLINE"):
             from .inline import Inliner, load_known
 
